@@ -106,7 +106,12 @@ def seg_case(draw, tier="quick"):
             "merged_single_sample": nfix, "second": second, "dx": draw(cm.scalar_or_pair(samp["dx"])),
             "du": draw(cm.scalar_or_pair(samp["du"])), "z": samp["z"], "wavelength": wl, "oversample": os_,
             "out_shape": out_shape, "prop_shape": prop_shape, "omask": omask,
-            "single_as_cube": draw(st.booleans())}
+            "single_as_cube": draw(st.booleans()),
+            # optional tilt carried as metadata: on the incoming wavefront, as a Tilt plane before and/or after the
+            # aperture (in output pixels; the same for every segment, so both descriptions must still agree)
+            "tilts": draw(st.sampled_from([None, None, None, "wavefront", "before", "after", "wavefront+after",
+                                           "before+after", "after+after"])),
+            "tilt_px": [draw(gen.finite(-2.5, 2.5)), draw(gen.finite(-2.5, 2.5))]}
 
 
 def _bbox_overlap(labels):
@@ -126,10 +131,20 @@ def _propagate(case, masks):
     planes = [(case["amp"], case["opd"])]
     if case["second"] is not None:
         planes.append((case["second"]["amp"], case["second"]["opd"]))
-    w = lentil.Wavefront(wl)
+    tilts = case.get("tilts") or ""
+    du = cm.ps_pair(case["du"])
+    ang = [case.get("tilt_px", [0, 0])[0] * du[1] / case["z"], case.get("tilt_px", [0, 0])[1] * du[0] / case["z"]]
+    w = lentil.Wavefront(wl, tilt=ang) if "wavefront" in tilts else lentil.Wavefront(wl)
+    if "before" in tilts:
+        w = w * lentil.Tilt(x=ang[0], y=-ang[1])
     for (a, o), m in zip(planes, masks):
         w = w * lentil.Pupil(amplitude=a.copy(), opd=o.copy(), mask=m.copy(), pixelscale=cm.as_ps(case["dx"]),
                              focal_length=case["z"])
+        if any(np.ndim(f.data) == 2 and f.data.size == 1 for f in w.data):
+            # the overlap of two planes' supports left a one-sample field (infinite constant, known finding)
+            raise Skip("single_sample_intermediate_field(known)")
+    for _ in range(tilts.count("after")):
+        w = w * lentil.Tilt(x=-0.5 * ang[0], y=ang[1])
     kw = {}
     if case["prop_shape"] is not None:
         kw["prop_shape"] = tuple(case["prop_shape"])
@@ -173,6 +188,8 @@ def segmented(case, ctx):
             "two_segmented_planes" if two_seg else None, "second_plane" if sec is not None else None,
             "prop<shape" if case["prop_shape"] is not None else None, "omask" if case["omask"] is not None else None,
             "cube_k1" if k == 1 and case["single_as_cube"] else None, gen.parity_tags("in", shape))
+    tilted = bool(case.get("tilts"))
+    ctx.tag("tilt:" + case["tilts"] if tilted else None)
     ctx.nontrivial_if(k >= 2)
     with lentil_call("C03.mono", "monolithic chain"):
         m_pre, m_pre_i, m_f, m_i = _propagate(case, mono)
@@ -191,6 +208,8 @@ def segmented(case, ctx):
     if cm.max_abs(s_i - m_i) > 1e-11 * peak ** 2 + 1e-300:
         raise Violation("C03.image.intensity", f"propagated intensity differs (k={k}): segments are not added "
                                                f"coherently ({cm.max_abs(s_i - m_i):.3e} vs peak {peak ** 2:.3e})")
+    if tilted:
+        return          # the absolute position of tilted images is C04's subject; here only the two descriptions
     # reference
     full = (case["out_shape"][0] * os_, case["out_shape"][1] * os_)
     prop = case["out_shape"] if case["prop_shape"] is None else case["prop_shape"]
